@@ -362,6 +362,88 @@ def rule_pure_gridding(ck):
                 % u(bad[0])[:80]) if bad else o.ok('%d region store(s), all under `mag_bins is None`' % len(stores)))
 
 
+def rule_region_attributes(ck):
+    """D7: gridding works on every kind of region a catalog can be bound to.
+    D7.regionattrs - a data attribute of `self.region` that a gridding method reads (outside a try that handles AttributeError) is
+    defined by every region class (assigned in __init__, bound in the class body, or a property): a region class without it makes the
+    method raise AttributeError for that kind of region only.
+    D7.nobins - where the bins of the region are taken because none were given, "the region has none" (attribute None, the
+    constructor default of the Cartesian grid) is handled like "the region has no such attribute": a None test on the bins follows
+    the read before they are used."""
+    P = ck.prog
+    ck.clause('D7')
+    region_classes = [c for c in P.classes.values() if c.module.name == 'csep.core.regions' and c.find_method('get_index_of') is not None
+                      and getattr(c, 'enclosing_func', None) is None]
+
+    def defines(c, attr):
+        if c.find_method(attr) is not None:
+            return True
+        for st in c.node.body:
+            if isinstance(st, ast.Assign) and any(isinstance(t, ast.Name) and t.id == attr for t in st.targets):
+                return True
+        init = c.find_method('__init__')
+        seen, todo = set(), [init] if init is not None else []
+        while todo:
+            m = todo.pop()
+            if m is None or m.qualname in seen:
+                continue
+            seen.add(m.qualname)
+            for n in all_nodes(m):
+                if isinstance(n, ast.Attribute) and isinstance(n.ctx, ast.Store) and n.attr == attr and isinstance(n.value, ast.Name) and n.value.id == 'self':
+                    return True
+                if isinstance(n, ast.Call) and isinstance(n.func, ast.Attribute) and isinstance(n.func.value, ast.Name) and n.func.value.id == 'self':
+                    todo.append(c.find_method(n.func.attr))
+        return False
+    for name in PURE + ['get_mag_idx']:
+        f = P.funcs.get(CAT + name)
+        if f is None:
+            continue
+        seen_attrs = set()
+        for n in all_nodes(f):
+            if not (isinstance(n, ast.Attribute) and isinstance(n.ctx, ast.Load) and isinstance(n.value, ast.Attribute) and n.value.attr == 'region'
+                    and isinstance(n.value.value, ast.Name) and n.value.value.id == 'self'):
+                continue
+            par = getattr(n, '_parent', None)
+            if isinstance(par, ast.Call) and par.func is n:
+                continue          # methods of the region: C04-D5.sibling / C01
+            if n.attr in seen_attrs:
+                continue
+            protected = False
+            for p_ in parents(n):
+                if isinstance(p_, ast.Try) and any(n in ast.walk(s_) for s_ in p_.body):
+                    for h in p_.handlers:
+                        if h.type is None or 'AttributeError' in u(h.type) or u(h.type) in ('Exception', 'BaseException'):
+                            protected = True
+                if isinstance(p_, ast.Call) and u(p_.func) in ('getattr', 'hasattr'):
+                    protected = True
+            if protected:
+                continue
+            seen_attrs.add(n.attr)
+            o = ck.ob('C03-D7.regionattrs', f, 'self.region.%s' % n.attr, n)
+            miss = [c.node.name for c in region_classes if not defines(c, n.attr)]
+            (o.fail('%s reads self.region.%s, which %s never defines: for a catalog bound to such a region the method raises AttributeError '
+                    '(also when the bins are given explicitly)' % (f.short, n.attr, ' / '.join(miss))) if miss else o.ok('defined by %d region class(es)' % len(region_classes)))
+    # D7.nobins
+    f = P.func(CAT + 'magnitude_counts')
+    cfg = f.cfg
+    reads = [a for a in all_nodes(f) if isinstance(a, ast.Assign) and any(isinstance(t, ast.Name) and t.id == 'mag_bins' for t in a.targets)
+             and 'self.region' in u(a.value) and 'magnitudes' in u(a.value)]
+    uses = [c for c in all_nodes(f) if isinstance(c, ast.Call) and ((u(c.func) == 'len' and c.args and u(c.args[0]) == 'mag_bins') or
+                                                                    (callee(P, f, c) == sentinel.BIN and any(u(a_) == 'mag_bins' for a_ in c.args)))]
+    for a in reads:
+        o = ck.ob('C03-D7.nobins', f, a, a)
+        an = cfg.node_of(a)
+        tests = [t for t in all_nodes(f) if isinstance(t, ast.If) and is_none_test(t.test, 'mag_bins')]
+        # every path from the read to a use of the bins passes a test `mag_bins is None`
+        tnodes = [cfg.node_of(t) for t in tests if cfg.node_of(t) is not None and cfg.node_of(t) is not an]
+        unodes = [cfg.stmt_node_containing(c) for c in uses]
+        ok = an is not None and bool(unodes) and bool(tnodes) and not any(un is not None and cfg.can_reach(an, un, avoid=tnodes) for un in unodes)
+        (o.ok('a None test follows the read') if ok else
+         o.fail('the bins read from the region may be None (a Cartesian grid built without magnitudes has `magnitudes = None`): nothing tests '
+                'that before `len(mag_bins)`, so the documented fallback to the CSEP magnitude bins only works for a region without the '
+                'attribute and a catalog on a plain Cartesian grid raises TypeError'))
+
+
 def find_assignments_local(f, name):
     from .common import find_assignments
     return find_assignments(f, name)
@@ -375,4 +457,4 @@ def rule_binning_shared(ck):
     c02.rule_callsites(ck)
 
 
-RULES = [rule_mag_sentinel, rule_accumulation, rule_pairing, rule_axes, rule_spatial_rejection, rule_pure_gridding, rule_binning_shared]
+RULES = [rule_mag_sentinel, rule_accumulation, rule_pairing, rule_axes, rule_spatial_rejection, rule_pure_gridding, rule_binning_shared, rule_region_attributes]
